@@ -503,7 +503,7 @@ func init() {
 				if !c.Mine(k) {
 					continue
 				}
-				if k&0xFF == 0 && c.Expired() {
+				if c.Due(0xFF) {
 					c.Note("deadline hit")
 					return
 				}
